@@ -139,6 +139,7 @@ class World:
         self.in_pipe = k.root.fds.get(pool._inqueue._writer.fileno()).wpipe
         self.in_pipe.tap = self._tap_in
         self.inq_rlock_id = pool._inqueue._rlock._semlock.handle
+        self.outq_wlock_id = pool._outqueue._wlock._semlock.handle
         self.inq_rfd = pool._inqueue._reader.fileno()
 
     def on_worker_started(self, child, process_obj):
@@ -148,7 +149,17 @@ class World:
         child.at_exit.append(self._on_worker_death)
 
     def on_sig_deliver(self, proc, signum, label):
-        if proc.pid in self.workers and label == 'read:%d' % self.inq_rfd and \
+        if proc.pid in self.workers and not proc.info.get('executing') and signum in TERMSIGS:
+            # did this worker take a whole task off the queue that it has not announced (ACK) yet?
+            name = 'W%d.' % proc.pid
+            for e in reversed(self.k.log[-400:]):
+                if e[1].startswith(name) and e[2] in ('read', 'write') and len(e) > 3:
+                    if e[2] == 'read' and e[3] == self.inq_rfd and e[4] and \
+                            self.in_pipe.nread in self.in_bounds:
+                        self.marks['task_taken_not_announced'] = (proc.pid, self.k.steps)
+                        self.k.probe('worker_signalled_between_read_and_ack')
+                    break
+        if proc.pid in self.workers and label.startswith('read') and not proc.info.get('executing') and \
                 self.in_pipe.nread not in self.in_bounds:
             self.marks['task_stream_desync'] = (proc.pid, self.k.steps)
             self.k.probe('worker_signalled_with_half_read_task')
